@@ -41,9 +41,10 @@ MODELLED = [
     "REGENERATED on every run and proved equal to coq/C09/Model.v for all arguments (C09/Bridge.v): the "
     "statement skeleton of _fit_forecasters / _predict_forecasters (base/_meta.py), of "
     "EnsembleForecaster.fit / update / _predict (incl. the aggfunc -> pandas reduction(axis) dispatch), "
-    "TransformedTargetForecaster._iter_transformers / fit / _predict / update / transform / "
-    "inverse_transform, MultiplexForecaster._check_selected_forecaster / _set_forecaster / fit / update / "
-    "_predict, StackingForecaster.fit / update / _predict, and _set_cutoff / _set_y_X / _update_y_X of "
+    "TransformedTargetForecaster fit / _predict / update / transform / inverse_transform (the steps "
+    "iterated over directly or through the private generator _iter_transformers, inlined), "
+    "MultiplexForecaster._check_selected_forecaster / _set_forecaster / fit / update / "
+    "_predict, StackingForecaster.fit / update / _predict, and _set_y_X / _update_y_X (with _set_cutoff inlined) of "
     "base/_sktime.py; call arguments bound by name against the API signatures read from "
     "forecasting/base/_base.py and transformations/base.py",
     "in the regenerated text a member forecaster is an abstract object (M_fit / M_update / M_predict); "
